@@ -1201,7 +1201,9 @@ class Connection(object):
                 # re-raise an exception that inherits from ConnectionException
                 raise CrcMismatchException(str(exc), self.endpoint)
         else:
+            # not even a complete segment header yet: keep what we have for the next read
             self._io_buffer._segment_consumed = False
+            self._io_buffer.io_buffer.seek(0)
 
     def process_io_buffer(self):
         while True:
